@@ -245,10 +245,32 @@ def check_case(ctx, case):
     ctx.count('framing_' + case['framing'])
     for m in case['mutations']:
         ctx.count('mut_' + m[0])
+    if case['family'] == 'fuzz':
+        return
     if broken:
         if 400 <= r.code < 500:
             ctx.count('broken_input_answered_4xx')
         ctx.nontrivial(case, sample={k: case[k] for k in ('family', 'mutations', 'ctype', 'framing', 'B', 'access', 'body')})
+
+
+# ------------------------------------------------------------------ coverage-guided tier (atheris)
+FUZZ_CT = ['multipart/form-data; boundary=b', 'multipart/form-data; boundary=b', 'multipart/form-data; boundary=bnd', 'application/json', 'application/x-www-form-urlencoded',
+           'multipart/mixed; boundary=b', '', 'multipart/form-data']
+FUZZ_ACC = [['forms'], ['files'], ['POST'], ['params'], ['json'], ['body', 'POST'], ['json', 'forms']]
+
+
+def fuzz_decode(data):
+    if len(data) < 4:
+        return None
+    ct = FUZZ_CT[data[0] % len(FUZZ_CT)]
+    fr = ['length', 'length', 'chunked', 'short', 'long', 'chunked_trunc', 'chunked_corrupt', 'none'][data[1] % 8]
+    return {'family': 'fuzz', 'body': bytes(data[3:]), 'ctype': ct, 'boundary': 'b', 'mutations': [], 'framing': fr, 'fr_a': data[2], 'fr_b': data[1],
+            'chunks': [1 + data[2] % 23], 'B': [8, 16, 64, 1000, 102400][(data[1] >> 3) % 5], 'access': FUZZ_ACC[data[2] % len(FUZZ_ACC)],
+            'pattern': [[], [3], [1, 5]][(data[1] >> 6) % 3], 'method': 'POST'}
+
+
+def fuzz_one(ctx, case):
+    check_case(ctx, case)
 
 
 def run(ctx):
@@ -287,6 +309,12 @@ def run(ctx):
         ctx.count('json_grid')
     n = 4000 if ctx.tier == 'quick' else 40000
     ctx.hyp(case_st(), check_case, n)
+    if ctx.tier == 'thorough' and ctx.shard < 4:
+        from vlib import fuzz
+        parts = [{'name': 'a', 'value': b'one'}, {'name': 'f', 'filename': 'x.bin', 'ctype': 'text/plain', 'value': b'file\r\ndata--'}]
+        wf, _ = encode_multipart('b', parts, b'', b'\r\n')
+        seeds = [] if ctx.shard % 2 else [b'\x00\x00\x00' + wf, b'\x03\x00\x04{"a": [1, 2, {"b": null}]}', b'\x04\x02\x00a=1&b=%zz&c']
+        fuzz.campaign(ctx, __import__('checks.c12_malformed', fromlist=['x']), runs=120000, max_len=600, seeds=seeds)
 
 
 def replay(ctx, case):
